@@ -129,8 +129,9 @@ class IoModel:
         R(["Bytes::new"], lambda ex, st, fr, c, a, d, r: VOpaque("filebytes", ("empty",)))
         R("fs::read", m_fs_read(io))
         R("fs::read_to_string", m_fs_read(io))
-        R("fs::metadata", lambda ex, st, fr, c, a, d, r: io.call(ex, st, d, r, "metadata",
-                                                             VOpaque("metadata", path_desc(st, a[0])), path=path_desc(st, a[0])))
+        R(["fs::metadata", "metadata", "Path::metadata", "fs::symlink_metadata"], m_metadata(io))
+        R(["Metadata::is_file"], lambda ex, st, fr, c, a, d, r: VBool(True))
+        R(["Metadata::is_dir"], lambda ex, st, fr, c, a, d, r: VBool(False))
         R("Metadata::len", lambda ex, st, fr, c, a, d, r: ex.new_int(st, "u64", "flen"))
         # ---- OpenOptions / File
         R("OpenOptions::new", lambda ex, st, fr, c, a, d, r: VOpaque("oo", {}))
@@ -481,6 +482,27 @@ def m_tmp_new(io):
         st.meta["ntmp"] = n
         tmp = VStruct("NamedTempFile", [VOpaque("tmpid", n), io.new_file(st, ("staging", n), write=True, own=True)])
         return io.call(ex, st, d, r, "create-temp", tmp, path=("staging", n))
+    return f
+
+
+def m_metadata(io):
+    """stat of a path: for a blob path the answer depends on the (shared) blob set - NotFound if it is not there"""
+    def f(ex, st, fr, c, a, d, r):
+        path = path_desc(st, a[0])
+        here = io.disk.exists(ex, st, path) if io.disk is not None else None
+        if here is None:
+            return io.call(ex, st, d, r, "metadata", VOpaque("metadata", path), path=path)
+        outs = []
+        if ex.feasible(st.pc, z3.Not(here)):
+            s2 = st.clone()
+            s2.pc.append(z3.Not(here))
+            s2.event("io", op="metadata", outcome="NotFound", path=path)
+            outs += ex.finish_call(s2, d, r, err(ioerr("NotFound")))
+        if ex.feasible(st.pc, here):
+            st.pc.append(here)
+            st.event("io", op="metadata", outcome="ok", path=path)
+            outs += ex.finish_call(st, d, r, ok(VOpaque("metadata", path)))
+        return outs
     return f
 
 
